@@ -253,6 +253,12 @@ func (m *Markdown) renderHTMLBlock(w io.Writer, n *ast.HTMLBlock, src []byte) er
 			return err
 		}
 	}
+	// The line that closes the block (-->, </script>, ...) is kept separately by the parser.
+	if n.HasClosure() {
+		if _, err := w.Write(n.ClosureLine.Value(src)); err != nil {
+			return err
+		}
+	}
 	return nil
 }
 
